@@ -164,7 +164,8 @@ Json generate(const std::string& tier, uint64_t seed, uint64_t index) {
   }
   sc.set("consumer", script);
   sc.set("options_rv", rng.chance(0.1) ? (long)(1 + rng.below(5)) : 0L);
-  sc.set("c_party", rng.chance(0.2));      // the consumer is a C callback table behind the library's C wrapper (api/c)
+  sc.set("c_party", rng.chance(0.2));
+  sc.set("easy_party", !sc["c_party"].as_bool() && rng.chance(0.15));   // the library's own handler (NLSolver::ReadSolution for an NLModel of the declared size)      // the consumer is a C callback table behind the library's C wrapper (api/c)
   return sc;
 }
 
@@ -200,6 +201,7 @@ SolReadConfig config_of(const Json& sc) {
   for (auto& st : sc["consumer"].arr()) { ConsumerStep s; s.mode = st["mode"].as_str(); s.k = (int)st["k"].as_int(); c.script.push_back(s); }
   c.options_rv = (int)sc["options_rv"].as_int(0);
   c.c_party = sc["c_party"].as_bool();
+  c.easy_party = sc["easy_party"].as_bool();
   return c;
 }
 
@@ -334,6 +336,7 @@ sim::RunResult run(const Json& sc) {
       for (size_t j = 0; j < res.vecs.size() && j < ref.vecs.size(); ++j) {
         const VecRec& a = res.vecs[j]; const VecRec& b = ref.vecs[j];
         if (a.what != b.what) break;
+        if (a.mode == "easy") continue;    // the library's own handler hands out full-size vectors whatever the file held
         // "reported as complete": the consumer read everything it was offered and the vector's reader ended OK
         bool complete = a.final_status == 0 && a.left == 0 && (int)a.vals.size() == a.offered;
         for (size_t i = 0; i < a.vals.size() && i < b.vals.size(); ++i) {
